@@ -12,7 +12,7 @@ import (
 func init() {
 	Drivers["C10"] = driveC10
 	Levels["C10"] = "fault_enumeration"
-	Rules["C10"] = "one run = one document universe (<=4 documents, some replaced by documents that fail the resolver's checks: bad regexp, $id with fragment, unsupported $schema, non-schema JSON, dangling reference; or a 60-deep chain of documents) under an enumerated set of loader behaviours: for every call index k up to the number of healthy calls + 1 and every behaviour in {error, (nil,nil), the root document again, a valid but wrong document, a document that declares the root's $id, the same *Schema pointer as an earlier call}, plus every single failing document; each Resolve, and Validate + ApplyDefaults of pooled instances on every Resolved that was obtained, must return a value or an error within the step budget. The same recover+budget oracle wraps every operation of the other properties' workloads, which this check also runs. Non-trivial = a fault fired while a reference was in flight (not on the first and not after the last request). Distinct = hash(universe, fault plan set) x order-vector hash."
+	Rules["C10"] = "one run = one document universe (<=4 documents, some replaced by documents that fail the resolver's checks: bad regexp, $id with fragment, unsupported $schema, non-schema JSON, dangling reference; or a 60-deep chain of documents) under an enumerated set of loader behaviours: for every call index k up to the number of healthy calls + 1 and every behaviour in {error, (nil,nil), the root document again, a valid but wrong document, a document that declares the root's $id, the same *Schema pointer as an earlier call, the right document as a cyclic or heavily shared Go graph, a re-entrant loader that resolves the document itself before handing it out}, errors that come with an empty schema or with the whole document, documents carrying the same key twice, one Schema variable reused for document after document, plus every single failing document; each Resolve, and Validate + ApplyDefaults of pooled instances on every Resolved that was obtained, must return a value or an error within the step budget. The same recover+budget oracle wraps every operation of the other properties' workloads, which this check also runs. Non-trivial = a fault fired while a reference was in flight (not on the first and not after the last request). Distinct = hash(universe, fault plan set) x order-vector hash."
 	Assumptions["C10"] = append([]string{
 		"decided: the fault-sequence clause (loader behaviours) and every operation executed by the other simulated workloads; NOT decided: robustness on arbitrary bytes, arbitrary in-memory Schema graphs, arbitrary Go representations of instances, arbitrary types (pure functions of the input)",
 		"a hang is a step-budget overrun (4*10^5 yields per operation, 5*10^6 for the deep chain; the largest legitimate operation in the workloads uses about 10^5); instances are canonical encoding/json values held through a pointer",
@@ -187,7 +187,7 @@ func driveC10(c *Ctx) {
 	}
 	for k := 1; k <= n+1 && k <= 8; k++ {
 		run(&FaultPlan{FailCall: k, Partial: k % 3}, fmt.Sprintf("call %d errs (partial %d)", k, k%3))
-		for _, b := range []string{"nilnil", "self", "wrong", "shared", "same-id", "cyclic", "dag"} {
+		for _, b := range []string{"nilnil", "self", "wrong", "shared", "same-id", "cyclic", "dag", "reentrant"} {
 			if b == "self" && !selfOK {
 				continue
 			}
